@@ -1,6 +1,6 @@
 (** Single entry point of the extracted model: name of the case kind -> function. *)
 From Coq Require Import List NArith ZArith String.
-From Tongo Require Import Lib.Bits Lib.Sx Harness.H06 Harness.H07 Harness.H01.
+From Tongo Require Import Lib.Bits Lib.Sx Harness.H06 Harness.H07 Harness.H01 Harness.H18.
 Import ListNotations.
 Local Open Scope string_scope.
 
@@ -13,4 +13,6 @@ Definition run (name : string) (a : sx) : sx :=
   else if is "c07.parse" then H07.run_parse a
   else if is "c02.hashes" then H07.run_hashes a
   else if is "c01.ser" then H01.run_ser a
+  else if is "c18.proof" then H18.run_proof a
+  else if is "c18.key" then H18.run_key a
   else sx_err "unknown case kind".
